@@ -26,7 +26,7 @@ OPTS = {"mode": "cli", "response_derives": "Serialize", "variables_derives": "De
 
 def make_tree():
     shutil.rmtree(os.path.dirname(TREE), ignore_errors=True)
-    for d in ("dirA", "dirB", "dirC", "inv", "bad"):
+    for d in ("dirA", "dirB", "dirC", "dirM", "inv", "bad"):
         os.makedirs(os.path.join(TREE, d))
     schema_a = space.core_schema()
     lib = space.fragment_library()
@@ -45,7 +45,11 @@ def make_tree():
                            gql.obj("W1", [("id", "Int!"), ("nick", "String")], ["Who"])], {"query": "Q"})
     doc_c = Doc([Op("query", "Op", [Field("version"), Field("me", [TN(), Field("id")])])])
     doc_inv = Doc([Op("query", "Op", [Field("version"), Field("node", [Field("id")])])])
+    # dirM: one query file with two operations, expanded once per operation the way the derive macro does it
+    doc_m = Doc([Op("query", "First", [Field("version"), Field("me", [Field("id"), Field("role")])]),
+                 Op("query", "Second", [Field("count"), Field("node", [TN(), Field("id")])])])
     files = {
+        "dirM/query.graphql": gql.render_doc(doc_m),
         "dirC/schema.graphql": schema_c.sdl(), "dirC/query.graphql": gql.render_doc(doc_c), "inv/query.graphql": gql.render_doc(doc_inv),
         "dirA/schema.graphql": schema_a.sdl(), "dirA/query.graphql": gql.render_doc(doc_a),
         "dirA/schema.json": schema_a.introspection(),
@@ -90,6 +94,10 @@ def alphabet(files):
         "invQ": call("dirA/schema.graphql", "inv/query.graphql"),
         "C": call("dirC/schema.graphql", "dirC/query.graphql"),
         "BqCs": call("dirC/schema.graphql", "dirB/query.graphql"),
+        "M1": call("dirA/schema.graphql", "dirM/query.graphql", options={"mode": "derive", "struct_ident": "First", "operation_name": "First",
+                                                                          "query_file": P("dirM/query.graphql"), "schema_file": P("dirA/schema.graphql")}),
+        "M2": call("dirA/schema.graphql", "dirM/query.graphql", options={"mode": "derive", "struct_ident": "Second", "operation_name": "Second",
+                                                                          "query_file": P("dirM/query.graphql"), "schema_file": P("dirA/schema.graphql")}),
         "missQ": call("dirA/schema.graphql", "dirA/nope.graphql"),
         "badQ": call("dirA/schema.graphql", "bad/query.graphql"),
         "missS": call("dirA/nope.graphql", "dirA/query.graphql"),
@@ -204,17 +212,17 @@ def run(tier):
     hist_jobs = [list(h) for n in range(2, L + 1) for h in itertools.product(core, repeat=n)]
     if tier == "quick":
         # length 3 over the collision-relevant sub-alphabet
-        sub = ["A", "A'", "B", "AqBs", "missQ", "badS", "Aopt", "Root", "BviaLink", "invQ", "C", "BqCs"]
+        sub = ["A", "A'", "B", "AqBs", "missQ", "badS", "Aopt", "Root", "BviaLink", "invQ", "C", "BqCs", "M1", "M2"]
         hist_jobs += [list(h) for h in itertools.product(sub, repeat=3)]
     else:
-        sub = ["A", "A'", "B", "AqBs", "missQ", "badS", "Aopt", "invQ", "BqCs"]
+        sub = ["A", "A'", "B", "AqBs", "missQ", "badS", "Aopt", "invQ", "BqCs", "M1", "M2"]
         hist_jobs += [list(h) for h in itertools.product(sub, repeat=4)]
     hres = parallel_map(lambda h: run_history([sigma[x] for x in h]), hist_jobs)
     for h, res in zip(hist_jobs, hres):
         check_history(h, res, "unrolled")
     log(f"[C08] unrolled histories: {len(hist_jobs)}")
     # ------------------------------------------------------------ 3. schedules
-    sched_alpha = ["A", "A'", "B", "missQ", "Root", "BviaLink", "invQ"]
+    sched_alpha = ["A", "A'", "B", "missQ", "Root", "BviaLink", "invQ", "M1", "M2"]
     programs = []
     for a, b in itertools.product(sched_alpha, repeat=2):
         programs.append([[a], [b]])
@@ -294,7 +302,7 @@ def run(tier):
     # ------------------------------------------------------------ 4. sampling supplement: 16 free-running threads
     free_runs = 8 if tier == "quick" else 60
     free_calls = 0
-    pool = ["A", "A'", "B", "AqBs", "BqAs", "missQ", "badS", "Astr", "Ajson", "Aopt", "invQ", "BqCs", "C"]
+    pool = ["A", "A'", "B", "AqBs", "BqAs", "missQ", "badS", "Astr", "Ajson", "Aopt", "invQ", "BqCs", "C", "M1", "M2"]
 
     def free_run(k):
         prog = [[pool[(k + t + i * 3) % len(pool)] for i in range(4)] for t in range(16)]
